@@ -317,6 +317,56 @@ def model_listing(chk, rng):
                 chk.corr_break("fsprog", dict(run=run, k=k, nl=nl, differing_files=diff, ops=ctr["ops"][:60]))
 
 
+def rollup_history_case(chk, rng):
+    """the stand-alone roll-up tool run twice in one directory (source = destination, its default): the second
+    run, on other inputs, must give what a run in a fresh directory gives — its own earlier outputs are leftovers"""
+    import random
+    BR = P.mod("mokapot.brew_rollup")
+
+    def results_for(tag, seed, root, dest, prefix):
+        r = random.Random(seed)
+        df = mkdata.make_psm_table(r, n_spectra=20 + seed % 16, max_per_spectrum=2, n_feat=2, label_enc="pm1",
+                                   optional=("ExpMass",), signal=3.0)
+        df["SpecId"] = [f"{tag}_{i}" for i in range(len(df))]
+        df["Peptide"] = [f"{tag}{p}" for p in df["Peptide"]]       # experiments have their own peptides
+        ds = mkdata.read_dataset(mkdata.write_table(df, root / f"in-{tag}.pin"))
+        with P.pep_kernel(stub=True):
+            P.run_assign_confidence([ds], [df["feat0"].values.astype(float) * 8 + "abc".index(tag)], dest,
+                                    prefixes=[prefix], decoys=True, do_rollup=True)
+
+    def rollup(d):
+        with contextlib.redirect_stdout(io.StringIO()), contextlib.redirect_stderr(io.StringIO()), \
+                P.pep_kernel(stub=True):
+            # base level "peptide": the tool's own outputs (roll.targets.peptides) match its input pattern
+            BR.main(["--level", "peptide", "-s", str(d), "-d", str(d), "-r", "roll"])
+
+    seeds = {t: rng.randrange(1 << 30) for t in "abc"}
+    with P.workdir() as root:
+        dirty = root / "dirty"; dirty.mkdir(); clean = root / "clean"; clean.mkdir()
+        try:
+            results_for("a", seeds["a"], root, dirty, "a"); results_for("b", seeds["b"], root, dirty, "b")
+            rollup(dirty)                                    # earlier run: inputs a, b
+            for f in dirty.glob("b.*"):
+                f.unlink()
+            results_for("c", seeds["c"], root, dirty, "c")
+            rollup(dirty)                                    # observed run: inputs a, c (roll.* of the earlier run present)
+            results_for("a", seeds["a"], root, clean, "a"); results_for("c", seeds["c"], root, clean, "c")
+            rollup(clean)
+        except SystemExit:
+            chk.reject("rollup-exit"); return
+        except Exception as e:
+            chk.reject("rollup-history-failed:" + type(e).__name__); return
+        chk.case(None, ("rollup-history", tuple(seeds.values())), sample=dict(rollup_history=True))
+        chk.count("rollup-history", "run")
+        a, b = snapshot(dirty), snapshot(clean)
+        for name in sorted(b):
+            if name.startswith("roll.") and "temp" not in name and a.get(name) != b[name]:
+                chk.spec_violation("rollup-leftovers",
+                                   dict(clause=f"roll-up result {name} differs between a directory holding the results of "
+                                               "an earlier roll-up and a fresh directory", seeds=seeds))
+                return
+
+
 def search(chk):
     for _ in range(12 * chk.budget_mult):
         c = gen_case(chk.rng)
@@ -345,6 +395,8 @@ def main(chk, args):
             run_case(chk, c, enumerate_all=True)
     for _ in range(3 if chk.tier == "quick" else 20):
         cli_case(chk, chk.rng)
+    for _ in range(chk.scale(3 if chk.tier == "quick" else 20)):
+        rollup_history_case(chk, chk.rng)
     lc = common.leanchecker("C09") if chk.tier == "thorough" else None
     chk.assumptions += [
         "PARTIAL: the theorems are about an abstract file system (name -> content map with truncate/append/unlink/"
